@@ -97,7 +97,14 @@ Json gen_hostile(Rng& rng, const Emitted& em, bool bin, bool swap) {
     if (i > 0) {   // a second patch must not overlap/shift the first: only allow equal-length binary patches
       if (!bin || strncmp(f.cls, "hdr.", 4) == 0) break;
     }
-    list.push(hostile_patch(em, f, hostile_value(rng, f), bin, swap));
+    Json op = hostile_patch(em, f, hostile_value(rng, f), bin, swap);
+    // text fields (all header fields, every field of a text file): now and then a literal that is no integer at all
+    if ((!bin || strncmp(f.cls, "hdr.", 4) == 0) && strcmp(f.cls, "bound.kind") != 0 && rng.chance(0.12)) {
+      static const char* lit[] = {"1e30", "-1e300", "nan", "inf", "-inf", "1.5", "9223372036854775808", "-9223372036854775809", "1e19", "0x10", "1e-5", "+", "-"};
+      op.set("ins", std::string(rng.pick(lit)));
+      op.set("value", 0);
+    }
+    list.push(op);
   }
   return list;
 }
